@@ -2,7 +2,8 @@ LEVEL = "proof"
 MANIFEST = {
     "engine": "symrun",
     "category": "proof",
-    "text": "Generator state is a function of (seed value, model view, settings): for RandMeth and Fourier every public mutator (update with a changed model / seed, seed / mode_no / period setters, reset_seed, in-place model change followed by SRF.__call__) is proved to end in exactly the state a freshly constructed generator has, for ALL parameter values and seeds (symbolic reals), so all call histories follow by induction; the output is the pointwise defining sum of the proved kernel postconditions (order, subset, batch, mesh type and storage name cannot matter); equal seed VALUES give equal states including the random-stream position. Added after the seeding rounds: in-place anis/angles/len_scale changes followed by a call that reuses the stored positions; models that differ only in an optional argument; the seed-value determinism of the real RNG / MasterRNG classes (the assumption behind the ghost RNG) checked natively for the boundary seeds 0 and 2**32-1. Also: Field.mesh on meshio meshes stores the field values at the nodes / cell centroids in the requested axis order (scalar and vector fields, several cell blocks).",
+    "text": "Generator state is a function of (seed value, model view, settings): for RandMeth and Fourier every public mutator (update with a changed model / seed, seed / mode_no / period setters, reset_seed, in-place model change followed by SRF.__call__) is proved to end in exactly the state a freshly constructed generator has, for ALL parameter values and seeds (symbolic reals), so all call histories follow by induction; the output is the pointwise defining sum of the proved kernel postconditions (order, subset, batch, mesh type and storage name cannot matter); equal seed VALUES give equal states including the random-stream position. Added after the seeding rounds: in-place anis/angles/len_scale changes followed by a call that reuses the stored positions; models that differ only in an optional argument; the seed-value determinism of the real RNG / MasterRNG classes (the assumption behind the ghost RNG) checked natively for the boundary seeds 0 and 2**32-1. Also: Field.mesh on meshio meshes stores the field values at the nodes / cell centroids in the requested axis order (scalar and vector fields, several cell blocks)."
+            " Round 7: Fourier.update with model, seed and mesh settings in one call equals a fresh generator (F34 repaired); store and post_process options of SRF.__call__ act independently (symbolic non-zero mean).",
     "level_note": "random draws are ghost terms: uninterpreted functions of (seed value, sub-stream index, element index, numeric model view) -- this is the assumed dependency contract that numpy RandomState/MasterRNG/emcee/scipy rvs are deterministic functions of the seed value and the draw count (T5); compiled kernels are replaced by their C15 postconditions in symbolic runs and run natively in the spot checks; wrapper obligations are shape-enumerated (modes <= 3, points <= 2: reported as bounded), state obligations use 2-4 modes per axis and dim 1-2; floats as reals (T1).",
     "technique": "contract-based deductive verification: symbolic execution of the real Python methods against sidecar postconditions from the docstrings, VCs discharged by z3/cvc5 with instantiated axiom hints",
 }
